@@ -103,6 +103,20 @@ def eval_set(case):
         pass
     if describe(ds) != want:
         bad('guards/duplicate-id-changed-content', f'{describe(ds)}')
+    # a pool may not be called like the marker the encoding uses for "no pool": either refused, or kept apart from it
+    for fk in ('D', 'R'):
+        try:
+            d = Delegation(atype=T[t], delegation_id='pm', aformat=FMT[fk], pool_id='_')
+            if fk == 'D':
+                d.set_details(mk_details(t, 0))
+            one = Delegations(atype=T[t])
+            one.add_delegations(d)
+            back1 = Delegations.from_json(json_str=one.to_json(), atype=T[t])
+            got1 = describe(back1) if back1 is not None else None
+            if got1 != describe(one):
+                bad(f'delegations/pool-named-like-the-single-marker/{fk}', f"{describe(one)} came back as {got1}")
+        except Exception:
+            pass
     # ... also when both arrive in ONE call
     try:
         two = []
